@@ -57,6 +57,8 @@ def load_decls(repo_root):
         p = os.path.join(repo_root, rel)
         if not os.path.exists(p): continue
         src = M.strip_attrs_and_comments(open(p).read())
+        for m in re.finditer(r"\btype\s+(\w+)\s*(<[^>=]*>)?\s*=\s*([^;]+);", src):
+            d = Decl(crate, module, m.group(1), "alias"); d.target = " ".join(m.group(3).split()); decls.append(d)
         for m in re.finditer(r"\b(enum|struct)\s+(\w+)\s*(<[^>{(;]*>)?\s*([{(;])", src):
             kind, name, opener = m.group(1), m.group(2), m.group(4)
             d = Decl(crate, module, name, kind)
@@ -233,6 +235,7 @@ class Converter:
         base = re.sub(r"<.*$", "", ty)
         d = self.types.find(base, module, crate)
         if d is None: raise DebugSyntax("no declaration for type %s (asked from module %s)" % (ty, module))
+        if d.kind == "alias": return self.conv(t, d.target, d.module, d.crate)
         if d.name == "Type" and d.module == "ty" and d.crate == "sylt_common":
             if t[0] == "unit" and t[1] in RUNTIME_TYPE_NAMES:
                 names = [v[0] for v in d.variants]; return M.EnumV("sylt_common::Type", names.index(RUNTIME_TYPE_NAMES[t[1]]), [])
